@@ -25,6 +25,110 @@ func runC16(c *Ctx) {
 	c16HashVariants(c, ge)
 	c16Unsafe(c)
 	c16Chunks(c, ge)
+	c16ReceiverMutation(c)
+}
+
+// lostReceiverWrites: a method with a VALUE receiver that stores into the receiver's fields (and does not return the
+// receiver) updates a copy; the caller's accumulator silently stays as it was.
+func lostReceiverWrites(fn *ssa.Function) []string {
+	if fn.Signature.Recv() == nil || len(fn.Params) == 0 {
+		return nil
+	}
+	if _, isPtr := fn.Signature.Recv().Type().Underlying().(*types.Pointer); isPtr {
+		return nil
+	}
+	recv := fn.Params[0]
+	// the receiver is spilled into a local when its fields are assigned
+	var spill *ssa.Alloc
+	for _, r := range *recv.Referrers() {
+		if st, ok := r.(*ssa.Store); ok && st.Val == ssa.Value(recv) {
+			spill, _ = st.Addr.(*ssa.Alloc)
+		}
+	}
+	if spill == nil {
+		return nil
+	}
+	// returning the (modified) receiver is the functional-update idiom
+	for _, b := range fn.Blocks {
+		for _, in := range b.Instrs {
+			if ret, ok := in.(*ssa.Return); ok {
+				for _, rv := range ret.Results {
+					if ld, ok := rv.(*ssa.UnOp); ok && ld.X == ssa.Value(spill) {
+						return nil
+					}
+				}
+			}
+		}
+	}
+	var out []string
+	for _, b := range fn.Blocks {
+		for _, in := range b.Instrs {
+			st, ok := in.(*ssa.Store)
+			if !ok || st.Val == ssa.Value(recv) {
+				continue
+			}
+			root := st.Addr
+			path := ""
+			for {
+				if fa, ok := root.(*ssa.FieldAddr); ok {
+					if pt, ok := fa.X.Type().Underlying().(*types.Pointer); ok {
+						if sx, ok := pt.Elem().Underlying().(*types.Struct); ok {
+							path = "." + sx.Field(fa.Field).Name() + path
+						}
+					}
+					root = fa.X
+					continue
+				}
+				if ia, ok := root.(*ssa.IndexAddr); ok {
+					path = "[…]" + path
+					root = ia.X
+					continue
+				}
+				break
+			}
+			if root == ssa.Value(spill) && path != "" {
+				out = append(out, path)
+			}
+		}
+	}
+	return out
+}
+
+func c16ReceiverMutation(c *Ctx) {
+	checkReceiverMutation(c, 12, [][2]string{{"rhp/v2", "sectorAccumulator"}, {"rhp/v2", "proofAccumulator"}, {"rhp/v4", "sectorAccumulator"}, {"blake2b", "Accumulator"}})
+}
+
+// checkReceiverMutation applies lostReceiverWrites to every method of the named types.
+func checkReceiverMutation(c *Ctx, min int, ts [][2]string) {
+	n := 0
+	for _, t := range ts {
+		pkg := c.P.SSAPackage(t[0])
+		if pkg == nil {
+			continue
+		}
+		typ, _ := pkg.Members[t[1]].(*ssa.Type)
+		if typ == nil {
+			continue
+		}
+		for _, rt := range []types.Type{typ.Type(), types.NewPointer(typ.Type())} {
+			ms := c.P.SSA.MethodSets.MethodSet(rt)
+			for i := 0; i < ms.Len(); i++ {
+				fn := c.P.SSA.MethodValue(ms.At(i))
+				if fn == nil || fn.Synthetic != "" || len(fn.Blocks) == 0 {
+					continue
+				}
+				if _, isPtr := rt.(*types.Pointer); isPtr {
+					if _, declaredPtr := fn.Signature.Recv().Type().Underlying().(*types.Pointer); !declaredPtr {
+						continue // seen through the value method set already
+					}
+				}
+				n++
+				lost := lostReceiverWrites(fn)
+				c.Check(len(lost) == 0, "receiver-mutation", FuncName(fn), c.P.Pos(fn.Pos()), ifElse(len(lost) == 0, "updates reach the caller's accumulator (pointer receiver, or no field is written)", "value receiver but the method writes "+strings.Join(lost, ", ")+" of its receiver: the update is made on a copy and lost"))
+			}
+		}
+	}
+	c.Check(n >= min, "receiver-mutation", "inventory", "", fmt.Sprintf("%d methods of stateful types examined", n))
 }
 
 // c16Chunks: sectorAccumulator.appendLeaves hashes four leaves at a time straight into the node
